@@ -49,6 +49,7 @@ const (
 	vC128
 	vBigF
 	vVecC
+	vRGSW
 	vNone
 )
 
@@ -68,6 +69,11 @@ type c09Op struct {
 	mutatesOp0 bool
 	// needDeg1: only defined for degree-1 inputs (the library does not check).
 	needDeg1 bool
+	// callerSetsMeta: the operation leaves the output's metadata to the caller (rlwe-level
+	// operations without scale semantics); the harness copies op0's metadata into a distinct output first.
+	callerSetsMeta bool
+	// needMaxLevel: only defined for inputs at the maximum level (the operation works at the level of its key material).
+	needMaxLevel bool
 }
 
 type c09Scheme struct {
@@ -268,7 +274,7 @@ func (c09) Run(ctx *core.RunCtx) {
 			d1 = c.Degree()
 		}
 		nat := op.deg(op0.Degree(), d1)
-		if nat < 0 || op.needDeg1 && op0.Degree() != 1 {
+		if nat < 0 || op.needDeg1 && op0.Degree() != 1 || op.needMaxLevel && op0.Level() != L {
 			continue
 		}
 		// aliasing pattern
@@ -303,6 +309,11 @@ func (c09) Run(ctx *core.RunCtx) {
 				dd = 2
 			}
 			dl := op0.Level() + ch.Draw("dirty-level-extra", L-op0.Level()+1)
+			if op.callerSetsMeta {
+				// low-level operation without shape management: the caller provides an output of
+				// the right shape; only its previous content is arbitrary
+				dd, dl = nat, op0.Level()
+			}
 			out = sc.newCt(dd, dl)
 			for i := range out.Value {
 				catalog.FillPoly(params.RingQ().AtLevel(dl), out.Value[i], g)
@@ -366,6 +377,14 @@ func (c09) Run(ctx *core.RunCtx) {
 			}
 			tout = sc.newCt(nat, lvl)
 		}
+		if op.callerSetsMeta {
+			if out != op0 {
+				*out.MetaData = *op0.MetaData
+			}
+			if tout != t0 {
+				*tout.MetaData = *t0.MetaData
+			}
+		}
 		// snapshots of everything that is not the designated output
 		h0, h1 := hashCt(op0), hashOperand(op1)
 		nPoison := 0
@@ -384,6 +403,7 @@ func (c09) Run(ctx *core.RunCtx) {
 		ctx.Event("step %d %s(%s) k=%d %s poison=%d op0(l=%d,d=%d) -> sys %s / twin %s", s, op.name, kindName(op1), k, patName, nPoison, op0.Level(), op0.Degree(), []string{"ok", "error", "panic"}[sysSt.kind], []string{"ok", "error", "panic"}[twinSt.kind])
 		cls := sc.name + "|" + op.name + "(" + kindName(op1) + ")|" + aliasClass(patName)
 		ctx.Count("oracle.twin-step", 1)
+		ctx.Count("op."+sc.name+"."+op.name, 1)
 		if patName != "fresh-out" || poison {
 			interesting++
 		}
